@@ -80,7 +80,7 @@ def select(fam, t, target):
     return out
 
 
-def run(want, targets=('sse', 'avx', 'mmx'), flagsets=None, fp_data=False, only_float=False, n_scale=1.0, report=None, quick_frac=1, n_small=False, job_timeout=None):
+def run(want, targets=('sse', 'avx', 'mmx'), flagsets=None, fp_data=False, only_float=False, n_scale=1.0, report=None, quick_frac=1, n_small=False, job_timeout=None, diff_only=False):
     """Returns (results, info). flagsets: dict target -> list of (label, flags|'default')"""
     from engines.x86sym import family
     t = tier()
@@ -96,9 +96,22 @@ def run(want, targets=('sse', 'avx', 'mmx'), flagsets=None, fp_data=False, only_
         if only_float:
             fam = [(n, x) for n, x in fam if optable.get(n.rsplit('_', 2)[0], {}).get('flags', 0) & 6 or 'addf' in n or 'addd' in n]
         sets = (flagsets or {}).get(target) or [('default', dflt[target])]
+        base_code = None
+        if diff_only:
+            # reduced flag sets matter exactly for the programs whose emitted bytes depend on the flags: compile the whole
+            # family (all operand kinds and prefixes) for the first flag set and keep, for the others, the programs whose
+            # code differs from it
+            fam_all = [(n, x) for n, x in family.family(ops, target) if keep(n, optable)]
+            r0 = family.compile_family(exe, target, dflt[target] if sets[0][1] == 'default' else sets[0][1], recipes=fam_all, cwd=b.dir)
+            base_code = {r['name']: (r.get('orccode') or {}).get('code') for r in r0}
         for si, (label, fl) in enumerate(sets):
             fl = dflt[target] if fl == 'default' else fl
             fam_s = fam if (t != 'quick' or quick_frac <= 1) else [e for k, e in enumerate(fam) if (k + si + seed()) % quick_frac == 0]
+            if diff_only and si > 0:
+                rall = family.compile_family(exe, target, fl, recipes=fam_all, cwd=b.dir)
+                changed = set(r['name'] for r in rall if (r.get('orccode') or {}).get('code') and (r.get('orccode') or {}).get('code') != base_code.get(r['name']))
+                sampled = set(e[0] for e in fam_s)
+                fam_s = [e for e in fam_all if e[0] in changed or e[0] in sampled]
             res = family.compile_family(exe, target, fl, recipes=fam_s, cwd=b.dir)
             ok = [r for r in res if r.get('orccode') and r['orccode'].get('code')]
             info['compiled'][(target, label)] = len(ok)
